@@ -1,7 +1,7 @@
 #!/bin/bash
 # For every "fixed:" entry of KNOWN_FINDINGS.txt: reverse the fix in a scratch copy and require the property's check
 # to report a VIOLATION again (a fixed entry suppresses nothing).
-cd /verif
+cd "${SPV_CHECK_ROOT:-/verif}"
 grep '^fixed:' KNOWN_FINDINGS.txt | sed -E 's/.*property=(C[0-9]+) commit=([0-9a-f]+) rule=([^ ]+).*/\1 \2 \3/' | sort -u | while read prop commit rule; do
   [ -f spv/props/$(echo $prop | tr A-Z a-z).py ] || { echo "$prop $commit: (no check yet)"; continue; }
   scr=$(mktemp -d /tmp/spvrev.XXXXXX); cp -r /repo/space_packet_parser $scr/
